@@ -3,7 +3,7 @@
 P=$1; I=$2; shift 2
 D=${SEEDBASE:-/tmp/seed}/out-$P
 DEMO=$(ls $D/demo${I}_test.go 2>/dev/null)
-PKG=$(grep -m1 -oE 'pkg/go/[a-z]+' $DEMO)
+PKG=$(grep -m1 -oE "pkg/go/[a-z]+" $DEMO | head -1)
 RUN=$(grep -o 'func Test[A-Za-z0-9_]*' $DEMO | sed 's/func //' | tr '\n' '|' | sed 's/|$//')
 echo "##### $P mutant $I (pkg $PKG, tests $RUN)"
 /verif/tools/verify_seed.sh $D/patch$I.diff $DEMO $PKG "$RUN" 2>&1 | grep -E "^---|^ok|^FAIL|^--- FAIL|PATCH|panic:" | head -20
